@@ -36,19 +36,20 @@ var c11Anchors = []string{"node/node_cmd_reg.go", "node/util.go", "node/keys.go"
 	"node/json.go", "node/geo.go", "node/ttl.go", "node/scan.go", "node/state_machine.go", "server/redis_api.go", "server/merge.go", "common/"}
 
 type childRun struct {
-	name       string
-	conf       childConf
-	variant    string // "race" | "plain"
-	dir        string
-	cmd        *exec.Cmd
-	started    time.Time
-	exitErr    error
-	exited     bool
-	killed     bool // by our watchdog
-	result     *childResult
-	wall       time.Duration
-	logged     int
-	stdoutTail *tailWriter
+	name         string
+	conf         childConf
+	variant      string // "race" | "plain"
+	dir          string
+	cmd          *exec.Cmd
+	started      time.Time
+	exitErr      error
+	exited       bool
+	killed       bool // by our watchdog
+	result       *childResult
+	wall         time.Duration
+	logged       int
+	loggedRandom int
+	stdoutTail   *tailWriter
 }
 
 // tailWriter keeps the last max bytes written and counts the recovered-panic
@@ -269,9 +270,13 @@ func runC11(c *vc.Ctx) error {
 		lives    int
 	}
 	var plans []plan
+	dict := ExtractDictionary(RepoDir())
+	c.Ev.Set("dictionary_strict_literals", dict.Strict)
+	c.Ev.Set("dictionary_loose_literals", len(dict.Loose))
 	mk := func(name, variant string, conf childConf, wd time.Duration, lives int) {
 		conf.Seed = c.Seed
 		conf.Names = names
+		conf.Dict = dict
 		plans = append(plans, plan{&childRun{name: name, variant: variant, conf: conf, dir: filepath.Join(c.Scratch, name)}, wd, lives})
 	}
 	if !c.Thorough() {
@@ -404,6 +409,12 @@ func runLane(c *vc.Ctx, cr *childRun, watchdog time.Duration, names []Registered
 				fmt.Printf("C11 child %s (%s, %s, %s) ended after %.0fs\n", cr.name, cr.conf.Mode, cr.variant, cr.conf.Engine, cr.wall.Seconds())
 				culprit := c11Judge(c, cr, names)
 				cr.logged = countLogLines(cr.dir)
+				cr.loggedRandom = 0
+				for _, ll := range readLog(cr.dir) {
+					if !strings.HasPrefix(ll.Kind, "argc-") && ll.Kind != "dict-sys" {
+						cr.loggedRandom++
+					}
+				}
 				// verdicts are in (witnesses carry what they need): free the disk
 				removeChildDirs(c.Scratch, cr.name)
 				if culprit == "" || culprit == "unknown" || attempt >= maxRelaunch || cr.conf.Mode == "batch" {
@@ -421,7 +432,7 @@ func runLane(c *vc.Ctx, cr *childRun, watchdog time.Duration, names []Registered
 				c.Ev.Count("children_relaunched_after_death", 1)
 				next := &childRun{name: fmt.Sprintf("%s+%d", baseName, attempt+1), variant: cr.variant, conf: cr.conf, dir: filepath.Join(c.Scratch, fmt.Sprintf("%s+%d", baseName, attempt+1))}
 				next.conf.Index = cr.conf.Index + 1000
-				logged := cr.logged
+				logged := cr.loggedRandom
 				switch cr.conf.Mode {
 				case "fuzz":
 					next.conf.PerConn = cr.conf.PerConn - logged/maxInt(1, cr.conf.Clients)
